@@ -235,3 +235,243 @@ pub proof fn lemma_seen_all(s: Seq<Token>)
     let i = choose|i: int| 0 <= i < s.len() && is_operand(#[trigger] s[i]);
     assert(is_operand(s[i]));
 }
+
+// ---------------------------------------------------------------------------
+// tokenize: what the texts it cuts can be (C18; replaces the clause that used to be assumed)
+// ---------------------------------------------------------------------------
+pub open spec fn is_sep(c: char) -> bool { c == '(' || c == ')' || c == ',' || c == ';' }
+
+// letter_number_hyphen, as a spec function (the character ranges of the source)
+pub open spec fn lnh(ch: char) -> bool {
+    ('a' <= ch && ch <= 'z') || ('A' <= ch && ch <= 'Z') || ('0' <= ch && ch <= '9')
+    || ch == '_' || ch == '-' || ch == '\u{ad}'
+    || ('\u{c0}' <= ch && ch < '\u{2c0}') || ('\u{380}' <= ch && ch < '\u{510}')
+}
+
+// TRUSTED(T3): white space (char::is_whitespace, what str::trim removes) is none of the characters the
+// tokenizer gives a meaning to: not a letter / digit / hyphen of `lnh`, not a backslash, quote, bracket or separator
+pub axiom fn axiom_ws_is_not_a_symbol()
+    ensures forall|c: char| #[trigger] is_ws(c) ==> !lnh(c) && c != '\\' && c != '"' && c != '(' && c != ')'
+                && c != '[' && c != ']' && c != ',' && c != ';' && c != '#' && c != '@';
+
+#[verifier::opaque]
+pub open spec fn all_ws_in(s: Seq<char>, lo: int, hi: int) -> bool {
+    forall|k: int| lo <= k < hi ==> is_ws(#[trigger] s[k])
+}
+// some character of the range is neither white space nor a separator symbol
+#[verifier::opaque]
+pub open spec fn has_other(s: Seq<char>, lo: int, hi: int) -> bool {
+    exists|k: int| lo <= k < hi && !is_ws(#[trigger] s[k]) && !is_sep(s[k])
+}
+// every opening parenthesis in the range comes with another character of the range that is not white space
+#[verifier::opaque]
+pub open spec fn lparen_not_alone(s: Seq<char>, lo: int, hi: int) -> bool {
+    forall|k: int| lo <= k < hi && #[trigger] s[k] == '(' ==> exists|m: int| lo <= m < hi && m != k && !is_ws(#[trigger] s[m])
+}
+
+// trimming keeps every character that is not white space
+pub proof fn lemma_trim_contains(r: Seq<char>, t: Seq<char>, k: int)
+    requires is_trim_of(r, t), 0 <= k < t.len(), !is_ws(t[k]),
+    ensures exists|m: int| 0 <= m < r.len() && #[trigger] r[m] == t[k],
+{
+    let (i, j) = choose|i: int, j: int| trim_at(r, t, i, j);
+    assert(trim_at(r, t, i, j));
+    if k < i { assert(is_ws(t[k])); }
+    if k >= j { assert(is_ws(t[k])); }
+    assert(r[k - i] == t[k]);
+}
+pub proof fn lemma_trim_two(r: Seq<char>, t: Seq<char>, k: int, m: int)
+    requires is_trim_of(r, t), 0 <= k < t.len(), 0 <= m < t.len(), k != m, !is_ws(t[k]), !is_ws(t[m]),
+    ensures r.len() >= 2,
+{
+    let (i, j) = choose|i: int, j: int| trim_at(r, t, i, j);
+    assert(trim_at(r, t, i, j));
+    if k < i { assert(is_ws(t[k])); }
+    if k >= j { assert(is_ws(t[k])); }
+    if m < i { assert(is_ws(t[m])); }
+    if m >= j { assert(is_ws(t[m])); }
+}
+// the characters of a trimmed text are characters of the text
+pub proof fn lemma_trim_sub(r: Seq<char>, t: Seq<char>, m: int)
+    requires is_trim_of(r, t), 0 <= m < r.len(),
+    ensures exists|k: int| 0 <= k < t.len() && #[trigger] t[k] == r[m],
+{
+    let (i, j) = choose|i: int, j: int| trim_at(r, t, i, j);
+    assert(trim_at(r, t, i, j));
+    assert(t[i + m] == r[m]);
+}
+
+// the text of a leaf and the type make_leaf_token gives it
+pub open spec fn leaf_of(r: Seq<char>, t: Token) -> bool {
+    &&& t is Leaf && t->token_str@ == r
+    &&& (ttype(t) is Comma <==> r == ","@)
+    &&& (ttype(t) is Semicolon <==> r == ";"@)
+    &&& (ttype(t) is LParen <==> r == "("@)
+    &&& (ttype(t) is RParen <==> r == ")"@)
+    &&& (ttype(t) is Subgoal <==> (r != ","@ && r != ";"@ && r != "("@ && r != ")"@))
+}
+
+// a text cut while an operand is due (all white space, or containing a character that is no separator): a Subgoal
+pub proof fn lemma_cut_is_subgoal(t: Seq<char>, r: Seq<char>, tok: Token)
+    requires is_trim_of(r, t), leaf_of(r, tok), all_ws_in(t, 0, t.len() as int) || has_other(t, 0, t.len() as int),
+    ensures ttype(tok) is Subgoal,
+{
+    reveal(all_ws_in); reveal(has_other);
+    reveal_strlit("("); reveal_strlit(")"); reveal_strlit(","); reveal_strlit(";");
+    axiom_ws_is_not_a_symbol();
+    if r == ","@ || r == ";"@ || r == "("@ || r == ")"@ {
+        assert(r.len() == 1);
+        lemma_trim_sub(r, t, 0);
+        let k0 = choose|k: int| 0 <= k < t.len() && #[trigger] t[k] == r[0];
+        if all_ws_in(t, 0, t.len() as int) {
+            assert(is_ws(t[k0]));
+        } else {
+            let k = choose|k: int| 0 <= k < t.len() && !is_ws(#[trigger] t[k]) && !is_sep(t[k]);
+            lemma_trim_contains(r, t, k);
+            let m = choose|m: int| 0 <= m < r.len() && #[trigger] r[m] == t[k];
+            assert(m == 0);
+        }
+    }
+}
+// a text in which no opening parenthesis stands alone is not the symbol "("
+pub proof fn lemma_cut_is_not_lparen(t: Seq<char>, r: Seq<char>, tok: Token)
+    requires is_trim_of(r, t), leaf_of(r, tok), lparen_not_alone(t, 0, t.len() as int),
+    ensures !(ttype(tok) is LParen),
+{
+    reveal(lparen_not_alone);
+    reveal_strlit("(");
+    axiom_ws_is_not_a_symbol();
+    if r == "("@ {
+        assert(r.len() == 1 && r[0] == '(');
+        lemma_trim_sub(r, t, 0);
+        let k = choose|k: int| 0 <= k < t.len() && #[trigger] t[k] == r[0];
+        assert(t[k] == '(');
+        let m = choose|m: int| 0 <= m < t.len() && m != k && !is_ws(#[trigger] t[m]);
+        lemma_trim_two(r, t, k, m);
+    }
+}
+
+// TRUSTED(T2): a &str is determined by its characters (vstd gives `match s { "lit" => .. }` the meaning `s == "lit"` on
+// the opaque type str, and has no axiom relating that equality to the view)
+pub axiom fn axiom_str_ext()
+    ensures forall|a: &str, b: &str| #![trigger a@, b@] a@ == b@ ==> a == b;
+
+// facts about a range of the text carry over to the text cut out of it
+pub proof fn lemma_cut_facts(s: Seq<char>, lo: int, hi: int)
+    requires 0 <= lo <= hi <= s.len(),
+    ensures
+        all_ws_in(s, lo, hi) ==> all_ws_in(s.subrange(lo, hi), 0, hi - lo),
+        has_other(s, lo, hi) ==> has_other(s.subrange(lo, hi), 0, hi - lo),
+        lparen_not_alone(s, lo, hi) ==> lparen_not_alone(s.subrange(lo, hi), 0, hi - lo),
+{
+    reveal(all_ws_in); reveal(has_other); reveal(lparen_not_alone);
+    let t = s.subrange(lo, hi);
+    if all_ws_in(s, lo, hi) {
+        assert forall|k: int| 0 <= k < hi - lo implies is_ws(#[trigger] t[k]) by { assert(is_ws(s[lo + k])); }
+    }
+    if has_other(s, lo, hi) {
+        let k = choose|k: int| lo <= k < hi && !is_ws(#[trigger] s[k]) && !is_sep(s[k]);
+        assert(t[k - lo] == s[k]);
+        assert(!is_ws(t[k - lo]) && !is_sep(t[k - lo]));
+    }
+    if lparen_not_alone(s, lo, hi) {
+        assert forall|k: int| 0 <= k < hi - lo && #[trigger] t[k] == '(' implies
+            exists|m: int| 0 <= m < hi - lo && m != k && !is_ws(#[trigger] t[m]) by {
+            assert(s[lo + k] == '(');
+            let m = choose|m: int| lo <= m < hi && m != lo + k && !is_ws(#[trigger] s[m]);
+            assert(t[m - lo] == s[m]);
+            assert(0 <= m - lo < hi - lo && m - lo != k && !is_ws(t[m - lo]));
+        }
+    }
+}
+
+// the four symbol texts are their own trimmed form, so make_leaf_token types them as the symbol
+pub proof fn lemma_symbol_leaf(sym: Seq<char>, tok: Token)
+    requires sym.len() == 1, is_sep(sym[0]), is_trim_of(trimmed(sym), sym), leaf_of(trimmed(sym), tok),
+    ensures
+        sym == "("@ ==> ttype(tok) is LParen,
+        sym == ")"@ ==> ttype(tok) is RParen,
+        sym == ","@ ==> ttype(tok) is Comma,
+        sym == ";"@ ==> ttype(tok) is Semicolon,
+{
+    axiom_ws_is_not_a_symbol();
+    let r = trimmed(sym);
+    lemma_trim_contains(r, sym, 0);
+    lemma_trim_len(r, sym);
+    assert(r.len() == 1 && r[0] == sym[0]);
+    assert(r =~= sym);
+}
+
+// --- one step of the scan over the pending text [lo, hi) ----------------------------------------------------
+pub proof fn lemma_range_empty(s: Seq<char>, lo: int)
+    ensures all_ws_in(s, lo, lo), lparen_not_alone(s, lo, lo), !has_other(s, lo, lo),
+{
+    reveal(all_ws_in); reveal(has_other); reveal(lparen_not_alone);
+}
+pub proof fn lemma_ws_step(s: Seq<char>, lo: int, hi: int)
+    requires all_ws_in(s, lo, hi), is_ws(s[hi]),
+    ensures all_ws_in(s, lo, hi + 1),
+{
+    reveal(all_ws_in);
+}
+pub proof fn lemma_ws_last(s: Seq<char>, lo: int, hi: int)
+    requires all_ws_in(s, lo, hi), lo < hi,
+    ensures is_ws(s[hi - 1]),
+{
+    reveal(all_ws_in);
+}
+pub proof fn lemma_other_grows(s: Seq<char>, lo: int, hi: int, hi2: int)
+    requires has_other(s, lo, hi), hi <= hi2,
+    ensures has_other(s, lo, hi2),
+{
+    reveal(has_other);
+    let k = choose|k: int| lo <= k < hi && !is_ws(#[trigger] s[k]) && !is_sep(s[k]);
+    assert(lo <= k < hi2 && !is_ws(s[k]) && !is_sep(s[k]));
+}
+pub proof fn lemma_other_new(s: Seq<char>, lo: int, k: int, hi: int)
+    requires lo <= k < hi, !is_ws(s[k]), !is_sep(s[k]),
+    ensures has_other(s, lo, hi),
+{
+    reveal(has_other);
+}
+// the range grows by characters none of which is a lone opening parenthesis: either it is not one at all ...
+pub proof fn lemma_lp_step_other(s: Seq<char>, lo: int, hi: int)
+    requires lparen_not_alone(s, lo, hi), s[hi] != '(',
+    ensures lparen_not_alone(s, lo, hi + 1),
+{
+    reveal(lparen_not_alone);
+    assert forall|k: int| lo <= k < hi + 1 && #[trigger] s[k] == '(' implies exists|m: int| lo <= m < hi + 1 && m != k && !is_ws(#[trigger] s[m]) by {
+        let m = choose|m: int| lo <= m < hi && m != k && !is_ws(#[trigger] s[m]);
+        assert(lo <= m < hi + 1 && m != k && !is_ws(s[m]));
+    }
+}
+// ... or the character before it, inside the range, is not white space
+pub proof fn lemma_lp_step_companion(s: Seq<char>, lo: int, hi: int)
+    requires lparen_not_alone(s, lo, hi), lo < hi, !is_ws(s[hi - 1]),
+    ensures lparen_not_alone(s, lo, hi + 1),
+{
+    reveal(lparen_not_alone);
+    assert forall|k: int| lo <= k < hi + 1 && #[trigger] s[k] == '(' implies exists|m: int| lo <= m < hi + 1 && m != k && !is_ws(#[trigger] s[m]) by {
+        if k < hi {
+            let m = choose|m: int| lo <= m < hi && m != k && !is_ws(#[trigger] s[m]);
+            assert(lo <= m < hi + 1 && m != k && !is_ws(s[m]));
+        } else {
+            assert(lo <= hi - 1 < hi + 1 && hi - 1 != k && !is_ws(s[hi - 1]));
+        }
+    }
+}
+// a quoted stretch: the opening quotation mark at q accompanies every parenthesis after it
+pub proof fn lemma_lp_quote(s: Seq<char>, lo: int, q: int, hi: int)
+    requires lparen_not_alone(s, lo, q), lo <= q < hi, !is_ws(s[q]), s[q] != '(',
+    ensures lparen_not_alone(s, lo, hi),
+{
+    reveal(lparen_not_alone);
+    assert forall|k: int| lo <= k < hi && #[trigger] s[k] == '(' implies exists|m: int| lo <= m < hi && m != k && !is_ws(#[trigger] s[m]) by {
+        if k < q {
+            let m = choose|m: int| lo <= m < q && m != k && !is_ws(#[trigger] s[m]);
+            assert(lo <= m < hi && m != k && !is_ws(s[m]));
+        } else {
+            assert(lo <= q < hi && q != k && !is_ws(s[q]));
+        }
+    }
+}
